@@ -27,13 +27,37 @@ import (
 	"verif/harness/internal/common"
 )
 
-const NKeys = 10
+const NKeys = 10 // plain ed25519 keys 0..9; Keys[10], Keys[11] are multisignature keys built from them
+const NAll = 12
 const Denom = "upokt"
 
 type Key struct {
 	Priv crypto.PrivateKey
 	Pub  crypto.PublicKey
 	Addr sdk.Address
+	Sub  []Key // components of a multisignature key
+}
+
+// Sign signs with a plain key, or, for a multisignature key, with every component in its position.
+func (k Key) Sign(msg []byte) []byte {
+	if k.Sub == nil {
+		sig, _ := k.Priv.Sign(msg)
+		return sig
+	}
+	ms := crypto.MultiSignature{}
+	for _, c := range k.Sub {
+		ms.Sigs = append(ms.Sigs, c.Sign(msg))
+	}
+	return ms.Marshal()
+}
+
+func multiKey(sub ...Key) Key {
+	var pubs []crypto.PublicKey
+	for _, c := range sub {
+		pubs = append(pubs, c.Pub)
+	}
+	pub := crypto.PublicKeyMultiSignature{PublicKeys: pubs}
+	return Key{Pub: pub, Addr: sdk.Address(pub.Address()), Sub: sub}
 }
 
 var Keys []Key
@@ -44,9 +68,14 @@ func init() {
 		pk := ed25519.GenPrivKeyFromSecret([]byte(fmt.Sprintf("verif-key-%d", i)))
 		priv := crypto.Ed25519PrivateKey{}.PrivKeyToPrivateKey(pk)
 		pub := priv.PublicKey()
-		k := Key{priv, pub, sdk.Address(pub.Address())}
+		k := Key{Priv: priv, Pub: pub, Addr: sdk.Address(pub.Address())}
 		Keys = append(Keys, k)
 		keyByAddr[hx(k.Addr)] = i
+	}
+	Keys = append(Keys, multiKey(Keys[0], Keys[1]))
+	Keys = append(Keys, multiKey(Keys[2], multiKey(Keys[3], Keys[4]))) // nested: 5 signatures counted, under the default limit
+	for i := NKeys; i < NAll; i++ {
+		keyByAddr[hx(Keys[i].Addr)] = i
 	}
 	posTypes.PosFeeMap = map[string]int64{}
 }
@@ -210,7 +239,13 @@ func (f *Fam) doInit(w []string) string {
 				panic("genesis account without key")
 			}
 			coins := sdk.NewCoins(sdk.NewCoin(Denom, bal))
-			ba := authTypes.NewBaseAccount(addr, coins, Keys[ki].Pub)
+			pub := Keys[ki].Pub
+			if Keys[ki].Sub != nil {
+				// genesis validation wants a plain key on every account; a multisignature account therefore exists
+				// with a key that is not its own (like one created by a transfer, it has no usable stored key)
+				pub = Keys[0].Pub
+			}
+			ba := authTypes.NewBaseAccount(addr, coins, pub)
 			accs = append(accs, ba)
 			supply = supply.Add(bal)
 			i += 2
@@ -418,10 +453,35 @@ func (f *Fam) txBytes(t txSpec) ([]byte, sdk.Msg) {
 	if err != nil {
 		panic(err)
 	}
-	sig, _ := Keys[t.signer].Priv.Sign(signBytes)
+	sig := Keys[t.signer].Sign(signBytes)
 	switch t.mut { // changes after signing
 	case "sig":
-		sig[3] ^= 0x40
+		if Keys[t.signer].Sub != nil {
+			sig[len(sig)-5] ^= 0x40 // inside the last component signature
+		} else {
+			sig[3] ^= 0x40
+		}
+	case "msswap": // a multisignature with its first two components exchanged
+		if k := Keys[t.signer]; k.Sub != nil {
+			ms := crypto.MultiSignature{}
+			for _, c := range k.Sub {
+				ms.Sigs = append(ms.Sigs, c.Sign(signBytes))
+			}
+			ms.Sigs[0], ms.Sigs[1] = ms.Sigs[1], ms.Sigs[0]
+			sig = ms.Marshal()
+		} else {
+			sig[3] ^= 0x40
+		}
+	case "msdrop": // a multisignature with its last component missing
+		if k := Keys[t.signer]; k.Sub != nil {
+			ms := crypto.MultiSignature{}
+			for _, c := range k.Sub[:len(k.Sub)-1] {
+				ms.Sigs = append(ms.Sigs, c.Sign(signBytes))
+			}
+			sig = ms.Marshal()
+		} else {
+			sig = sig[:len(sig)-1]
+		}
 	case "fee":
 		fee = sdk.NewCoins(sdk.NewCoin(Denom, t.fee.AddRaw(1)))
 	case "memo":
